@@ -327,7 +327,11 @@ _c("C13",
    "serialization/deserialization of the serialized form; besides the seeded random classes, VERIF_SEED-independent lattices "
    "enumerate every Union shape (arity 2-4 x position of None x nesting x listed/unlisted), scalar and mutable defaults x every "
    "declaration form, and annotation lengths around the __future__ bound; reified real Field objects, (field, default, required) of "
-   "declarations and the same under the __future__ import are compared with the model inside Coq.",
+   "declarations and the same under the __future__ import are compared with the model inside Coq. Spelled expressions BOUND TO "
+   "A NAME and re-used by several declarations (alone and as an operand of |, Optional, Union, list[..], Array[..], AnyOf[..], "
+   "Tuple, Map; harness/c13_alias.py: a lattice of alias forms x uses plus random modules) are executed step by step: every class is "
+   "compared with the class of the module in which the expression is written out at every use, right after its own definition and "
+   "again after every later declaration (decided on the implementation: the model has values, not shared objects).",
    "Trusted: Coq kernel + vm_compute; Spelling.v hand-written; extractors harness/genmods/type_mapping.py and annot_guards.py (fail "
    "closed: unrecognised shape -> C13_src_rules does not build); typing's own Union flattening/de-duplication and its "
    "argument cache are CPython's (Unions typing de-duplicates, and argument Unions in a non-canonical member order, are not "
